@@ -718,6 +718,12 @@ class Interp(object):
                 raise SymRaise('ValueError', ('truth value of an array',))
         except ImportError:
             pass
+        if hasattr(v, 'sym_truth'):
+            return self.truth(v.sym_truth(self))
+        if not is_plain(v) and not callable(v) and not isinstance(v, (Func, BoundMethod, Module)):
+            # a value of the model (abstract array, symbolic list ...): Python would ask ITS __bool__ / __len__, which the model does not
+            # define; answering True would silently drop the other branch
+            raise CheckerError('truth value of a model object of type %s is not modelled' % type(v).__name__)
         return bool(v)
 
     def newname(self, base):
